@@ -430,10 +430,20 @@ Revalidate ==
     /\ reply' = NoReply
     /\ UNCHANGED <<sc, tip, sub, app, pc, utxo, offered>>
 
+\* coreutils.MineBlock (miner.go): the assembler takes the reported pool, v1 then v2, IN ORDER and stops
+\* at the first transaction that no longer fits into the block weight: the body is a PREFIX of the
+\* reported sequence -- the only thing the pool promises to be valid
+RECURSIVE CutLen(_, _, _)
+CutLen(ids, i, w) ==
+    IF i > Len(ids) THEN i - 1
+    ELSE IF w + W(ids[i]) > S.maxblock THEN i - 1
+    ELSE CutLen(ids, i + 1, w + W(ids[i]))
+MinePrefix == LET all == pool1 \o pool2 IN SubSeq(all, 1, CutLen(all, 1, 0))
+
 Mine ==
     /\ Fresh
     /\ act' = [op |-> "Mine"]
-    /\ reply' = [NoReply EXCEPT !.r = IF PoolOK(pool1, pool2) THEN "accepted" ELSE "rejected"]
+    /\ reply' = [NoReply EXCEPT !.r = IF IdsOKFrom(St0, MinePrefix, 1) THEN "accepted" ELSE "rejected", !.ids = MinePrefix]
     /\ UNCHANGED <<sc, tip, sub, app, pc, utxo, pool1, pool2, offered, mustKeep, kept0, stale>>
 
 \* UpdateV2TransactionSet(set, from, to); corrupt: "none" | "proof" | "leaf" | "basis"
@@ -503,6 +513,15 @@ Retention   == Fresh => mustKeep \subseteq PoolIds
 RetentionStrict == Fresh => kept0 \subseteq PoolIds          \* without the tolerance of DevEphDrop
 NoInvention == PoolIds \subseteq offered /\ NoDup(pool1 \o pool2)
 Minable     == (act.op = "Mine" => reply.r = "accepted") /\ obs.mine
+\* the assembled body (reply.ids, judged whatever assembled it) is a prefix of the reported pool ...
+MinedIsPrefix ==
+    [][act'.op = "Mine" => LET all == pool1 \o pool2 b == reply'.ids IN
+                             Len(b) <= Len(all) /\ SubSeq(all, 1, Len(b)) = b]_vars
+\* ... in particular it is a valid set at the tip on its own: no child without the parent that creates
+\* its output, no input spent twice (decided from the specification's ledger, not from the node's answer)
+MinedSelfContained == [][act'.op = "Mine" => IdsOKFrom(St0, reply'.ids, 1)]_vars
+\* and it is cut at the weight limit, not beyond
+MinedFits == [][act'.op = "Mine" => WeightOf(reply'.ids, 1) <= S.maxblock]_vars
 \* the statement of Retention is consistent: some pool always satisfies it
 RetentionSatisfiable ==
     Idle => \E p1 \in InjSeqs({t \in mustKeep : Kind(t) = "v1"}), p2 \in InjSeqs({t \in mustKeep : Kind(t) = "v2"}) :
